@@ -60,6 +60,8 @@ type Run struct {
 	explain string
 	assume  []string
 	counter map[string]int
+	// isImport: this run executes another property's rules on behalf of importRules
+	isImport bool
 }
 
 type ruleInfo struct {
@@ -94,7 +96,11 @@ func (r *Run) rule(id, kind, text string, expectMin int) {
 // importRules runs another property's rules and adopts the obligations of the named rules under this property
 // (rule id "<this>.<=<origin rule>"): used where a property's behaviour rests on a mechanism decided elsewhere.
 func (r *Run) importRules(f func(*Run), rules ...string) {
-	sub := &Run{Prop: r.Prop, Tier: r.Tier, Seed: r.Seed, W: r.W, mw: r.mw, overlay: r.overlay}
+	if r.isImport {
+		// imports are one level deep: only native rules of the origin property can be imported (this also breaks cycles)
+		return
+	}
+	sub := &Run{Prop: r.Prop, Tier: r.Tier, Seed: r.Seed, W: r.W, mw: r.mw, overlay: r.overlay, isImport: true}
 	f(sub)
 	r.mw = sub.mw
 	want := map[string]bool{}
